@@ -4,7 +4,7 @@
 (* invariants of the property; behaviours are emitted for replay.          *)
 (***************************************************************************)
 EXTENDS OFXNet, TLC, Json
-CONSTANTS Clients, MaxCalls
+CONSTANTS Clients, MaxCalls, NoPersist
 
 VARIABLES adv, sets, jar, issued, next, sent, calls
 vars == <<adv, sets, jar, issued, next, sent, calls>>
@@ -13,7 +13,7 @@ Init == /\ adv \in Hosts /\ sets \in [Hosts -> BOOLEAN]
         /\ issued = <<>> /\ next = 1 /\ sent = <<>> /\ calls = <<>>
 Call(c, kind, mode) ==
   /\ Len(calls) < MaxCalls
-  /\ LET st == Posts([jar |-> jar, issued |-> issued, next |-> next, sent |-> sent], c, kind, mode, adv, sets) IN
+  /\ LET st == Posts([jar |-> jar, issued |-> issued, next |-> next, sent |-> sent], c, kind, mode, adv, sets, NoPersist) IN
      /\ jar' = st.jar /\ issued' = st.issued /\ next' = st.next /\ sent' = st.sent
   /\ calls' = Append(calls, [client |-> c, kind |-> kind, mode |-> mode, nsent |-> Len(sent')])
   /\ UNCHANGED <<adv, sets>>
@@ -32,6 +32,9 @@ CredentialsOnlyWhereAllowed ==
 CookieIsolation == \A i \in 1..Len(sent) : sent[i].cookie # 0 => issued[sent[i].cookie] = <<sent[i].client, sent[i].host>>
 \* a cookie a server set is replayed on the same client's next request to that host
 CookieReplay == \A i \in 1..Len(sent) : \A j \in 1..(i - 1) :
-                  (sent[j].client = sent[i].client /\ sent[j].host = sent[i].host /\ sets[sent[i].host]) => sent[i].cookie # 0
-Emit == (Len(calls) = MaxCalls) => PrintT("BEH " \o ToJson([adv |-> adv, sets |-> sets, calls |-> calls, sent |-> sent]))
+                  (sent[j].client = sent[i].client /\ sent[j].host = sent[i].host /\ sets[sent[i].host] /\ sent[i].client \notin NoPersist)
+                     => sent[i].cookie # 0
+\* a client that does not persist cookies never sends one
+NonPersistingSendsNone == \A i \in 1..Len(sent) : sent[i].client \in NoPersist => sent[i].cookie = 0
+Emit == (Len(calls) = MaxCalls) => PrintT("BEH " \o ToJson([adv |-> adv, sets |-> sets, calls |-> calls, sent |-> sent, nop |-> NoPersist]))
 =============================================================================
